@@ -284,13 +284,6 @@ class Runner(object):
 
     def _until(self, sim):
         """Called when nothing is runnable/deliverable at the current time."""
-        if self.pending_ops or self.pending_faults:
-            # force the injection points even if the step counter stalls
-            nxt_ops = self.pending_ops[:1] + self.pending_faults[:1]
-            for o in nxt_ops:
-                o['at_step'] = min(o.get('at_step', 0), sim.step)
-            self._inject_due(sim)
-            return False
         if self.world.net.inflight:
             return False
         if world.M.db_base.tx_lock.locked():
@@ -300,20 +293,12 @@ class Runner(object):
                 return False
         d = observe.quick_states()
         now = sim.vtime()
-        # operator that resumes whatever is left paused once everything
-        # else has drained (bounded number of times)
-        n_auto = self.case.get('auto_resume', 0)
-        if n_auto and self.auto_resumed < n_auto and \
-                any(s == 'PAUSED' for _, s in d[0]):
-            self.auto_resumed += 1
-            self.issue_op({'op': 'resume', 'target': 'paused', 'auto': True,
-                           'via': 'rest', '_i': 1000 + self.auto_resumed})
-            return False
         if d != self.last_digest:
             self.last_digest = d
             self.last_change = now
         if not d[0] and not (self.case.get('starts')):
             return self.on_idle_no_workflows(sim)
+        quiet = None
         settle = self.case.get('settle', None)
         if self._all_terminal_and_drained(d):
             # everything finished: still let late timers fire for `settle`
@@ -321,16 +306,41 @@ class Runner(object):
             # checks is pending)
             if settle is None:
                 if not self._non_integrity_jobs():
-                    self.res.quiescent_reason = 'terminal'
-                    return True
+                    quiet = 'terminal'
             elif now - self.last_change >= settle:
-                self.res.quiescent_reason = 'terminal+settle'
-                return True
+                quiet = 'terminal+settle'
+        if quiet is None and d[0] and \
+                all(st in ('SUCCESS', 'ERROR', 'CANCELLED', 'PAUSED')
+                    for _, st in d[0]) and \
+                any(st == 'PAUSED' for _, st in d[0]) and \
+                not self._non_integrity_jobs() and \
+                now - self.last_change >= self.case.get('paused_settle', 3):
+            quiet = 'paused'
         window = self.case.get('quiesce_window', self.quiesce_window)
-        if now - self.last_change >= window:
-            self.res.quiescent_reason = 'stable'
-            return True
-        return False
+        if quiet is None and now - self.last_change >= window:
+            quiet = 'stable'
+        if quiet is None:
+            return False
+        # the run has drained: operator commands / faults scheduled for a
+        # later step are issued now, one at a time
+        if self.pending_ops or self.pending_faults:
+            nxt_ops = self.pending_ops[:1] or self.pending_faults[:1]
+            for o in nxt_ops:
+                o['at_step'] = min(o.get('at_step', 0), sim.step)
+            self._inject_due(sim)
+            self.last_change = now
+            return False
+        # operator that resumes whatever is left paused (bounded)
+        n_auto = self.case.get('auto_resume', 0)
+        if n_auto and self.auto_resumed < n_auto and \
+                any(s == 'PAUSED' for _, s in d[0]):
+            self.auto_resumed += 1
+            self.issue_op({'op': 'resume', 'target': 'paused', 'auto': True,
+                           'via': 'rest', '_i': 1000 + self.auto_resumed})
+            self.last_change = now
+            return False
+        self.res.quiescent_reason = quiet
+        return True
 
     def on_idle_no_workflows(self, sim):
         return True
